@@ -27,4 +27,5 @@ if "-v" in sys.argv:
             print("\n== %s" % path.split("/cola/")[1])
             for name, ln in sorted(never, key=lambda x: -x[1])[:40]:
                 r = subprocess.run(["c++filt", name], capture_output=True, text=True).stdout.strip()
+                if r.startswith("std::") or " std::" in r[:40] or "__gnu_cxx" in r[:30] or "outputCode" in r or "CriticalFailure" in r or "printf" in r: continue   # library templates, debug output
                 print("   %4d lines  %s" % (ln, r[:150]))
